@@ -101,7 +101,7 @@ def check(case, ctx):
         d = np.array(case["rod"][:3], float)
         d /= np.linalg.norm(d)
         rn = case["rod"][3]
-        r = d * rn
+        r = O.ro(d * rn)
         R = mod.rod_to_u(r)
         ctx.nontrivial(rn > 100 or big > 100)
         ctx.event("ctor")
@@ -125,6 +125,7 @@ def check(case, ctx):
         U = U @ O.Rx(t) @ O.Rx(-t)
     if case["f32"]:
         U = U.astype(np.float32).astype(float)
+    U = O.ro(U)
     defect = O.ortho_defect(U)
     if defect < 1e-12:
         defect = 0.0            # an exact (to rounding) proper rotation: the property's own 1e-6 applies
